@@ -47,8 +47,8 @@ def orders(names, all_orders=True):
     return [list(p) for p in itertools.permutations(names)] if all_orders else [list(names), list(reversed(names))]
 
 
-def pair(chain, menu=(1, 2, 3), end=6, starts=(0, 0), order=("A", "B"), pull_initial=True):
-    return dict(family="pair", comps=[T("A", menu, outs=["o"], start=starts[0]), T("B", menu, ins=["i"], start=starts[1], pull_initial=pull_initial)], links=[L("A", "o", "B", "i", chain)], order=list(order), end=end)
+def pair(chain, menu=(1, 2, 3), end=6, starts=(0, 0), order=("A", "B"), pull_initial=True, menu_b=None):
+    return dict(family="pair", comps=[T("A", menu, outs=["o"], start=starts[0]), T("B", menu_b or menu, ins=["i"], start=starts[1], pull_initial=pull_initial)], links=[L("A", "o", "B", "i", chain)], order=list(order), end=end)
 
 
 def line3(ch1, ch2, menu=(1, 2), end=5, order=("A", "B", "C"), starts=(0, 0, 0)):
